@@ -64,4 +64,24 @@ PROPS = {
         "explanation": "Theorems C18_* + bit-exact correspondence; oracle = rankings recomputed by counting (no sort) on the model's iterates, run-length statistics and the stopping rule.",
         "assumptions": ["scores at checked iterates pairwise distinct for the top-k clause (property's quantifier)"],
     },
+    "C08": {
+        "level_text": "Machine-checked theorems: (every scalar instance) ExtractDistrust keeps every cell with value >= 0 unchanged in the trust part and moves every other cell sign-reversed to the distrust part, supports disjoint, both parts well-formed (index order preserved), non-square refused; DiscountTrustVector gives bit-identical results for distrust matrices that agree on the rows of scored peers (distrust by peers without reputation has no effect); (reals) L = P - D with P >= 0 and D > 0, and discount = t_j - sum_i t_i*D_ij for every j. 'Up to rounding' for binary64 is decided per run by an exact-integer bound. Tied to /repo by bit-exact correspondence.",
+        "level_note": "Trusted: Coq kernel, vm_compute, Reals axioms (R theorems), FloatAxioms (evaluation); hand-written model (the in-place compaction and the two-pointer merge become filter/partition and structural recursion); harness. The binary64 rounding clause is measured, not proved.",
+        "technique": "Coq proof (structural induction on the merge-matching loop; exact sums over R) + bit-exact correspondence by vm_compute",
+        "families": ["C08"],
+        "go_tests": "",
+        "rule": "square matrices n 0..8 with all sign patterns (all-negative rows, alternating, mostly positive, explicit +-0, empty rows, first entry negative), 4% non-square; discount: score vectors with 20-100% scored peers (zero-score distrusters before/between/after scored ones), distrust matrices raw or row-normalised, 10% with fewer rows than peers. Non-trivial = at least one negative entry (extract) / at least one scored distruster (discount).",
+        "explanation": "Theorems C08_* + bit-exact correspondence; oracle = cell-wise split conditions and exact-integer discount formula.",
+        "assumptions": [],
+    },
+    "C04": {
+        "level_text": "Machine-checked theorems: (every scalar instance) Canonicalize divides every entry by the compensated sum and reports a zero sum without producing a result; CanonicalizeLocalTrust canonicalises every row, substituting the pre-trust for rows that report a zero sum (or leaving them untouched without pre-trust) - every row incl. the last; CanonicalizeTrustVector yields the uniform vector on all n indices for a zero vector; (reals) the canonical form sums to 1 with x'_i = x_i/s (ratios preserved), is invariant under multiplication by any non-zero constant, and canonicalised non-negative vectors are distributions. PARTIAL: bit-identity for power-of-two factors on binary64 is decided per run (Scaled cases), not proved.",
+        "level_note": "Trusted: Coq kernel, vm_compute, Reals axioms, FloatAxioms; hand-written model; harness. Aliasing introduced by SetRowVector (rows sharing the pre-trust's slice) is not modelled.",
+        "technique": "Coq proof (field reasoning over R, case analysis on the canonicalisation outcome) + bit-exact correspondence by vm_compute",
+        "families": ["C04"],
+        "go_tests": "",
+        "rule": "spans/rows/vectors n 1..9 with positive values over 200 binades, 15% zero-sum shapes (empty, explicit zeros only, cancelling pair), 5% tiny magnitudes; matrices with zero-sum rows forced at first/middle/last position, with (70%) and without pre-trust, dimension mismatches; power-of-two scaling of every row (2^-60..2^59) and of the pre-trust: canonical forms must be bit-identical. Non-trivial = more than one entry / row.",
+        "explanation": "Theorems C04_* + bit-exact correspondence; oracle = exact-integer 'sums to 1', ratio preservation, substitution rule, bit-identity under power-of-two scaling.",
+        "assumptions": [],
+    },
 }
